@@ -13,6 +13,7 @@ VERIF_C16_PART=tx|blk restricts the import to one part (development aid).
 import os
 
 _part = os.environ.get('VERIF_C16_PART', '')
+PARTIAL = bool(_part)
 SUBCHECKS = []
 RULE_PARTS = []
 ASSUMPTIONS = ['harness/ref/reftlb.py generic TL-B interpreter (self-checked on hand-assembled bit strings) and the schema tables '
